@@ -55,8 +55,6 @@ func main() {
 		Configs: func(th bool) []explore.Config {
 			if !th {
 				return []explore.Config{
-					{Name: "mgmt nametree localhop=off pairs=all", MaxDepth: 2, MaxDev: 1},
-					{Name: "mgmt nametree localhop=on pairs=all", MaxDepth: 2, MaxDev: 1},
 					{Name: "mgmt hashtable localhop=on pairs=none", MaxDepth: 2, MaxDev: 1},
 					{Name: "path nametree localhop=off -", MaxDepth: 2, MaxDev: -1},
 					{Name: "path nametree localhop=on -", MaxDepth: 2, MaxDev: -1},
@@ -65,6 +63,9 @@ func main() {
 					// form, so the history that exposes it must not be pruned
 					{Name: "history search (no dedup) routine commands, hashtable", BuildName: "mgmt hashtable localhop=on pairs=none", MaxDepth: 4, MaxDev: 0, NoDedup: true},
 					{Name: "history search (no dedup) routine commands, nametree", BuildName: "mgmt nametree localhop=on pairs=none", MaxDepth: 4, MaxDev: 0, NoDedup: true},
+					// the two largest configurations last: they get whatever the cheaper ones left of the budget
+					{Name: "mgmt nametree localhop=off pairs=all", MaxDepth: 2, MaxDev: 1},
+					{Name: "mgmt nametree localhop=on pairs=all", MaxDepth: 2, MaxDev: 1},
 				}
 			}
 			var c []explore.Config
